@@ -193,3 +193,7 @@ def evaluate(cfg):
                 o.cmp("evaluate_general_kinetic_energy_density alpha=%s %s" % (alpha, bk), got, ref, TOL,
                       tmag + abs(alpha) * (lmag + z), key="general-ked")
     return o
+
+
+def cost(cfg):
+    return sum((l + 1) ** 2 * M for l, K, M in BASES[cfg["basis"]])
